@@ -17,7 +17,7 @@ from .kernel import cb, SimFault
 
 from entity_query_language import symbol, predicate, Predicate
 
-FIELDS = frozenset(("a", "b", "c", "tags", "peer", "kids"))
+FIELDS = frozenset(("a", "b", "c", "tags", "peer", "kids", "meta"))
 _get = object.__getattribute__
 
 
@@ -92,6 +92,7 @@ class Item(_Base):
     tags: Any = field(default_factory=list)
     peer: Any = None
     kids: Any = field(default_factory=list)
+    meta: Any = field(default_factory=dict)
 
     def m0(self):
         cb("call", lab(self), "m0")
@@ -198,6 +199,41 @@ def p_has(x, k):
     return k in _get(x, "tags")
 
 
+@predicate
+def p_calls(x):
+    """A user predicate that calls another user predicate (must run concretely all the way down)."""
+    cb("pred", "p_calls", lab(x))
+    r = p_odd(x)
+    return r is True or r is False and False
+
+
+@predicate
+def p_makes(x):
+    """A user predicate that constructs a @symbol instance: concretely that is a real Solo whose field is x."""
+    cb("pred", "p_makes", lab(x))
+    s = Solo(of=x)
+    return type(s) is Solo and _get(s, "of") is x and x.a >= 2
+
+
+@predicate
+def p_inner(x):
+    """A user predicate that, while an outer evaluation is running, opens its OWN symbolic block, builds an inner
+    query with a class predicate there and evaluates it inside that block.  evaluate() must give the plain-Python
+    answer there too; the expected answer is computed directly and both are reported to the seam."""
+    cb("pred", "p_inner", lab(x))
+    from entity_query_language import symbolic_mode, let, an, entity
+    with symbolic_mode():
+        y = let(Item, [x])
+        # a function predicate whose body constructs a @symbol instance (class predicates are not used here: built
+        # inside an enclosing `with query:` block they are implicitly bound to that query's variable, by design)
+        q = an(entity(y, p_makes(y)))
+        rows = list(q.evaluate())
+    got = len(rows) == 1 and rows[0] is x
+    expected = bool(_get(x, "a") >= 2)
+    cb("inner_eval", lab(x), (got, expected, len(rows)))
+    return got
+
+
 # ---- class predicates
 
 @dataclass(eq=False, repr=False)
@@ -222,7 +258,8 @@ class Linked(Predicate):
 
 CLASSES = {"Item": Item, "Gadget": Gadget, "Widget": Widget, "Twin": Twin, "View": View, "Pair": Pair, "Solo": Solo,
            "Tagged": Tagged}
-FPREDS = {"p_odd": (p_odd, 1), "p_ge": (p_ge, 2), "p_link": (p_link, 2), "p_has": (p_has, 2)}
+FPREDS = {"p_odd": (p_odd, 1), "p_ge": (p_ge, 2), "p_link": (p_link, 2), "p_has": (p_has, 2),
+          "p_calls": (p_calls, 1), "p_makes": (p_makes, 1), "p_inner": (p_inner, 1)}
 CPREDS = {"IsBig": (IsBig, 1), "IsBigK": (IsBig, 2), "Linked": (Linked, 2)}
 
 
@@ -300,6 +337,8 @@ class World:
             for k, v in o.get("f", {}).items():
                 kw[k] = v
             obj = cls(**{k: self._val(k, v) for k, v in kw.items() if k not in ("peer", "kids")})
+            if "meta" not in kw:
+                object.__setattr__(obj, "meta", {"k": self._val("a", kw.get("c", 1))})
             object.__setattr__(obj, "_lab", o["l"])
             self.objects[o["l"]] = obj
         for o in spec["objects"]:
@@ -316,6 +355,8 @@ class World:
     def _val(k, v):
         if k == "tags":
             return [V(x) if isinstance(x, int) and not isinstance(x, bool) else x for x in v]
+        if k == "meta":
+            return {kk: (V(x) if isinstance(x, int) and not isinstance(x, bool) else x) for kk, x in v.items()}
         if isinstance(v, int) and not isinstance(v, bool):
             return V(v)
         return v
@@ -324,7 +365,8 @@ class World:
         """Identity sequence of every user collection and the field values of every user object."""
         return (
             tuple((n, tuple(id(x) for x in l)) for n, l in sorted(self.lists.items())),
-            tuple((l, tuple((k, id(v) if isinstance(v, _Base) else lab(v) if not isinstance(v, list)
+            tuple((l, tuple((k, id(v) if isinstance(v, _Base) else tuple(sorted((kk, lab(x)) for kk, x in v.items()))
+                             if isinstance(v, dict) else lab(v) if not isinstance(v, list)
                              else tuple(id(e) if isinstance(e, _Base) else lab(e) for e in v))
                             for k, v in sorted(_get(o, "__dict__").items()) if k != "_lab"))
                   for l, o in sorted(self.objects.items())),
